@@ -485,8 +485,10 @@ AHPubAck(keys) ==
 \* was never copied.
 AHEnd ==
   /\ tq = {} /\ DOMAIN copying = {}
-  /\ \A x \in DOMAIN cust : chan[x[1]].st = "gone" \/ cust[x].loc \in {"Fin", "Gone", "QM"}
-  /\ \A m \in DOMAIN minfo : minfo[m].acked =>
-       \A c \in owed[m] : chan[c].st = "gone" \/ (Has(cust, <<c, m[2]>>) /\ cust[<<c, m[2]>>].loc \in {"Fin", "Gone", "QM"})
+  \* (written as empty sets: TLC treats a bounded \A among an action's conjuncts as a conjunction and explores both sides of
+  \*  every disjunction under it -- 2^n times the same successor for n messages of a deleted channel)
+  /\ {x \in DOMAIN cust : ~(chan[x[1]].st = "gone" \/ cust[x].loc \in {"Fin", "Gone", "QM"})} = {}
+  /\ {m \in DOMAIN minfo : minfo[m].acked /\
+        {c \in owed[m] : ~(chan[c].st = "gone" \/ (Has(cust, <<c, m[2]>>) /\ cust[<<c, m[2]>>].loc \in {"Fin", "Gone", "QM"}))} # {}} = {}
   /\ UNCHANGED vars
 =============================================================================
